@@ -118,7 +118,7 @@ K_SpuriousWake(x) ==
                w == LastIdx(SubSeq(x.events, 1, i),
                             LAMBDA e : e.ev = "prim" /\ e.th = th /\
                                        e.k = "cond_wait" /\ e.obj = "plock")
-           IN \E j \in w..i :
+           IN w > 0 /\ \E j \in w..i :    \* (w = 0: the thread never waited)
                 /\ x.events[j].ev = "prim" /\ x.events[j].k = "notify"
                 /\ x.events[j].obj = "plock" /\ x.events[j].th \notin {th, "S"}
 
